@@ -247,7 +247,10 @@ def chkpnt (s : St) (cut : Option Cut := none) : St :=
         if c.u == u && !(seen.contains u) then (if c.afterRename then setFile fs u (tasksOf s u) else fs)
         else go rest (setFile fs u (tasksOf s u)) (u :: seen)
       | none => go rest (setFile fs u (tasksOf s u)) (u :: seen)
-  { s with files := go (chkpntUsers s) s.files [], dirty := [] }
+  let fs := go (chkpntUsers s) s.files []
+  -- the complete dump finally unlinks the queue files of users it has not seen, i.e. who own no task anymore
+  let fs := if s.dirty.length ≥ 16 ∧ cut.isNone then fs.filter (fun f => (chkpntUsers s).contains f.1) else fs
+  { s with files := fs, dirty := [] }
 
 /-- a single failing call while user `u`'s file is written: open / close / rename failures leave the live
 file as it was (the dot-file is unlinked); the check-pointing of the other users goes on -/
